@@ -5,7 +5,10 @@
 EXTENDS Calls
 
 \* ---- options: a value given at call time overrides one bound at definition time, else the default
-Effective(callOpt, defOpt, dflt) == IF callOpt.k # "none" THEN callOpt ELSE IF defOpt.k # "none" THEN defOpt ELSE dflt
+\* ("xnone": None passed explicitly at call time - a given value like any other: it overrides the bound one and means
+\* "whatever the grid says")
+Effective(callOpt, defOpt, dflt) == IF callOpt.k = "xnone" THEN dflt
+                                    ELSE IF callOpt.k # "none" THEN callOpt ELSE IF defOpt.k # "none" THEN defOpt ELSE dflt
 
 \* ---- dummy names of the input side, in order of first appearance, are bound to the real axes named in
 \* `axis` (one sequence of real names per input), in order of first appearance
